@@ -574,8 +574,13 @@ func (v SolutionVehicle) ModelVehicle() ModelVehicle {
 // are not removed. Fixed stops are not removed.
 func (v SolutionVehicle) Unplan() (bool, error) {
 	// TODO notify observers
+	// a plan unit is fixed as soon as one of its stops is (and a unit of units
+	// as soon as one of its members is): none of its stops is removed
 	solutionStops := common.Filter(v.SolutionStops(), func(solutionStop SolutionStop) bool {
-		return !solutionStop.IsFixed()
+		if solutionStop.IsFixed() {
+			return false
+		}
+		return !v.solution.unwrapRootPlanUnit(solutionStop.planStopsUnit()).IsFixed()
 	})
 	if len(solutionStops) == 0 {
 		return false, nil
